@@ -25,7 +25,7 @@ Print Assumptions C02_complete.
 
 (* completeness and soundness together: with no loop-bound log, every input is covered by a
    leaf that describes the reference interpreter's result (or is explicitly stuck / out of
-   fuel / the early invalid-jump leaf of C01_badjump_refuted) *)
+   fuel) *)
 Theorem C02_total :
   forall lim se rho oracle loop,
     Forall (fun b => 0 <= b < 256) (se_code se) ->
